@@ -71,8 +71,8 @@ PROPS.update({
         "level": "proof",
         "level_text": "session parameters incl. deprecated spellings are postconditions of Session.setup for every settings dict",
         "level_note": COMMON_NOTE + "; JSON values modelled by an uninterpreted sort with tag predicates",
-        "tasks": ["Session.setup"],
-        "not_decided": ["inheritance, count/range expansion, distributions, class lookup: contracts not finished in this commit"],
+        "tasks": ["Session.setup", "SequentialRunner._generate_markets[count-range-names]", "SequentialRunner._generate_agents[count-range-names]"],
+        "not_decided": ["inheritance, distributions, class lookup: contracts not finished in this commit"],
     },
 })
 EXEC_TASKS = ["Market._execution", "Market._execute_orders", "Market.remain_executable_orders", "OrderBook.change_order_volume", "OrderBook._remove", "Order.compare"]
